@@ -1,4 +1,5 @@
 import FmtModel.Engine
+import FmtModel.Generated.Assets
 import FmtModel.Classes.Serial
 import FmtModel.Classes.Datetime
 /-
